@@ -296,6 +296,14 @@ func (c *Ctx) Eq(a, b *Term) *Term {
 	if a.IsConst() && b.Op == OpIte && b.Args[1].IsConst() && b.Args[2].IsConst() {
 		return c.Ite(b.Args[0], c.Eq(b.Args[1], a), c.Eq(b.Args[2], a))
 	}
+	// eq(concat(h,l), const) splits
+	if b.IsConst() && a.Op == OpConcat && a.W <= 64 {
+		l := a.Args[1]
+		return c.And(c.Eq(a.Args[0], c.BV(a.Args[0].W, b.V>>uint(l.W))), c.Eq(l, c.BV(l.W, b.V)))
+	}
+	if a.IsConst() && b.Op == OpConcat && b.W <= 64 {
+		return c.Eq(b, a)
+	}
 	// eq(zext(x), const)
 	if b.IsConst() && a.Op == OpZExt && a.W <= 64 {
 		xw := a.Args[0].W
@@ -504,6 +512,18 @@ func (c *Ctx) bin(op Op, a, b *Term) *Term {
 		if a == b {
 			return c.BV(w, 0)
 		}
+		// x - (x / k) * k  ==  x % k   (exact in wrap-around arithmetic, signed and unsigned)
+		if b.Op == OpBVMul {
+			for i := 0; i < 2; i++ {
+				d, k := b.Args[i], b.Args[1-i]
+				if (d.Op == OpBVSDiv || d.Op == OpBVUDiv) && d.Args[0] == a && d.Args[1] == k && k.IsConst() && !isZero(k) {
+					if d.Op == OpBVSDiv {
+						return c.bin(OpBVSRem, a, k)
+					}
+					return c.bin(OpBVURem, a, k)
+				}
+			}
+		}
 		if b.IsConst() && w <= 64 {
 			return c.bin(OpBVAdd, a, c.BV(w, -b.V))
 		}
@@ -536,6 +556,11 @@ func (c *Ctx) bin(op Op, a, b *Term) *Term {
 		if a.IsConst() && !b.IsConst() {
 			a, b = b, a
 		}
+		if b.IsConst() && b.Big == nil && w <= 64 {
+			if r := c.andMask(a, b.V); r != nil {
+				return r
+			}
+		}
 	case OpBVOr:
 		if isZero(a) {
 			return b
@@ -548,6 +573,9 @@ func (c *Ctx) bin(op Op, a, b *Term) *Term {
 		}
 		if a == b {
 			return a
+		}
+		if r := c.orSegments(a, b); r != nil {
+			return r
 		}
 		if a.IsConst() && !b.IsConst() {
 			a, b = b, a
@@ -583,6 +611,8 @@ func (c *Ctx) bin(op Op, a, b *Term) *Term {
 				return c.Concat(c.Extract(a, w-1-k, 0), c.BV(k, 0))
 			case OpBVLShr:
 				return c.Concat(c.BV(k, 0), c.Extract(a, w-1, k))
+			case OpBVAShr:
+				return c.SExt(c.Extract(a, w-1, k), k)
 			}
 		}
 	case OpBVUDiv, OpBVSDiv:
@@ -591,6 +621,155 @@ func (c *Ctx) bin(op Op, a, b *Term) *Term {
 		}
 	}
 	return c.mk(&Term{Op: op, W: w, Args: []*Term{a, b}})
+}
+
+type seg struct {
+	t *Term // nil = zeros
+	w int
+}
+
+func (c *Ctx) segs(t *Term, out []seg) []seg {
+	switch t.Op {
+	case OpConst:
+		if t.Big == nil && t.V == 0 {
+			return append(out, seg{nil, t.W})
+		}
+	case OpConcat:
+		out = c.segs(t.Args[0], out)
+		return c.segs(t.Args[1], out)
+	case OpZExt:
+		out = append(out, seg{nil, t.I1})
+		return c.segs(t.Args[0], out)
+	}
+	return append(out, seg{t, t.W})
+}
+
+// orSegments rewrites a|b as a concatenation when the operands have disjoint zero regions
+// (byte-assembly patterns such as x<<56 | y<<48 | ...). nil when nothing is gained.
+func (c *Ctx) orSegments(a, b *Term) *Term {
+	if !(a.Op == OpConcat || a.Op == OpZExt) && !(b.Op == OpConcat || b.Op == OpZExt) {
+		return nil
+	}
+	sa := c.segs(a, nil)
+	sb := c.segs(b, nil)
+	hasZero := func(ss []seg) bool {
+		for _, s := range ss {
+			if s.t == nil {
+				return true
+			}
+		}
+		return false
+	}
+	if !hasZero(sa) || !hasZero(sb) {
+		return nil
+	}
+	// walk from the high end
+	var res *Term
+	gained := false
+	i, j := 0, 0
+	ra, rb := 0, 0 // bits already consumed from the current segments (from their high end)
+	for i < len(sa) && j < len(sb) {
+		wa, wb := sa[i].w-ra, sb[j].w-rb
+		n := wa
+		if wb < n {
+			n = wb
+		}
+		piece := func(s seg, used int) *Term {
+			if s.t == nil {
+				return nil
+			}
+			hi := s.w - 1 - used
+			return c.Extract(s.t, hi, hi-n+1)
+		}
+		pa, pb := piece(sa[i], ra), piece(sb[j], rb)
+		var chunk *Term
+		switch {
+		case pa == nil && pb == nil:
+			chunk = c.BV(n, 0)
+			gained = true
+		case pa == nil:
+			chunk = pb
+			gained = true
+		case pb == nil:
+			chunk = pa
+			gained = true
+		default:
+			if pa.IsConst() && pb.IsConst() && n <= 64 {
+				chunk = c.BV(n, pa.V|pb.V)
+			} else if pa == pb {
+				chunk = pa
+			} else {
+				x, y := pa, pb
+				if x.ID > y.ID {
+					x, y = y, x
+				}
+				chunk = c.mk(&Term{Op: OpBVOr, W: n, Args: []*Term{x, y}})
+			}
+		}
+		if res == nil {
+			res = chunk
+		} else {
+			res = c.Concat(res, chunk)
+		}
+		ra += n
+		rb += n
+		if ra == sa[i].w {
+			i++
+			ra = 0
+		}
+		if rb == sb[j].w {
+			j++
+			rb = 0
+		}
+	}
+	if !gained {
+		return nil
+	}
+	return res
+}
+
+// andMask rewrites x & const as zeros/extracts when the mask is a few runs of ones.
+func (c *Ctx) andMask(x *Term, m uint64) *Term {
+	w := x.W
+	m &= mask(w)
+	if m == 0 || m == mask(w) {
+		return nil
+	}
+	// count runs
+	runs := 0
+	prev := uint64(0)
+	for i := 0; i < w; i++ {
+		bit := (m >> uint(i)) & 1
+		if bit == 1 && prev == 0 {
+			runs++
+		}
+		prev = bit
+	}
+	if runs > 3 {
+		return nil
+	}
+	var res *Term
+	i := w - 1
+	for i >= 0 {
+		bit := (m >> uint(i)) & 1
+		j := i
+		for j >= 0 && (m>>uint(j))&1 == bit {
+			j--
+		}
+		var chunk *Term
+		if bit == 1 {
+			chunk = c.Extract(x, i, j+1)
+		} else {
+			chunk = c.BV(i-j, 0)
+		}
+		if res == nil {
+			res = chunk
+		} else {
+			res = c.Concat(res, chunk)
+		}
+		i = j
+	}
+	return res
 }
 
 func (c *Ctx) Add(a, b *Term) *Term  { return c.bin(OpBVAdd, a, b) }
@@ -866,7 +1045,8 @@ func sortStr(w int) string {
 }
 
 func smtName(n string) string {
-	return "|" + strings.NewReplacer("|", "_", "\\", "_").Replace(n) + "|"
+	// the "v!" prefix keeps input names apart from theory symbols (cvc5 rejects e.g. "sec")
+	return "|v!" + strings.NewReplacer("|", "_", "\\", "_").Replace(n) + "|"
 }
 
 // shallow SMT-LIB text of t with children referenced by name tN.
